@@ -88,6 +88,10 @@ mod with_loom {
 			RwLockWriteGuard(self.0.write().unwrap())
 		}
 
+		pub fn try_write(&self) -> Option<RwLockWriteGuard<T>> {
+			self.0.try_write().ok().map(RwLockWriteGuard)
+		}
+
 		pub fn is_locked(&self) -> bool {
 			!self.0.try_write().is_ok()
 		}
